@@ -19,6 +19,7 @@ def run(chk):
     chk.add_mc(r0)
     chk.add_neg(mc("MC_Stream", "NEG_C06_skip.cfg", expect_fail=True))
     chk.add_mc(mc("MC_Frame", "MC_Frame.cfg", workers=8))
+    chk.add_mc(mc("MC_Stream", "MC_Stream_A4.cfg", workers=8, timeout=3000))
     # GEN -> replay: behaviours of the Stream spec in the REAL profile (TLC simulation), each stepped through the real
     # scanner with the caller protocol; every scanner call must return what the spec computed, the final state must match
     g = gen("Gen_Stream", "Gen_Stream.cfg", chk.path("gen.vec"), simulate=300 if q else 6000, depth=90, seed=chk.seed, timeout=3000)
